@@ -63,7 +63,7 @@ def run(tier, seed):
     # through the spill path of the key-of-set cache; every caller must still follow an input change
     wide = ec.wide_fanin_leg(PID, bd, wd, verdict, "eng_persist", fan=(1100,) if quick else (1024, 1025, 1100, 2100),
                              restart=True, extra={"cap": 64, "grouping": 0, "regime": "hold", "crash": False, "cutseed": seed})
-    summary = ec.collect(PID, traces, verdict, known, "kv")
+    summary = ec.collect(PID, traces, verdict, known, "kv", baseline=("eng_persist", []))
     baseline_same = ec.finish_candidates(PID, verdict, summary, wd, "eng_persist", [])
     rc = verdict.finish()
     ev0 = [e for e in vp.read_ndjson(traces[0]["trace"])[:400] if e["e"] in
